@@ -210,13 +210,14 @@ def RoundTripStatement : Prop :=
   ∀ t : Ty, WFType t → ∀ rest : Str, stopTd rest = true →
     parseType (printTy t ++ rest) = .ok t rest
 
-/-- **roundtrip_partial** (T2 on the fragment `Ty.frag`: primitives, alias references without
-    arguments — INCLUDING the ones named `int`/`bin`/`ref`, printed `<'int>` resp. `(<'int>)` by the
-    repairs dea6b02 / b32cfa9 —, `^` and `^N`, resources, tuples and PARTIAL types — named or not, with named or positional
+/-- **roundtrip_partial** (T2 on the fragment `Ty.frag`: primitives, alias references with or
+    without type arguments (`'t`, `'t<a, b>`) — INCLUDING the argument-less ones named
+    `int`/`bin`/`ref`, printed `<'int>` resp. `(<'int>)` by the
+    repairs dea6b02 / b32cfa9 —, `^` and `^N`, resources, the module's own default type `'` / `'<a, b>`, tuples and PARTIAL types — named or not, with named or positional
     fields —, function types, unions and intersections, nested WITHOUT BOUND):
     the parser's model reads the printed text back to exactly the same AST and stops exactly at
-    `rest`. Missing cases (the full statement is `RoundTripStatement`): spreads and
-    `'alias[...]` tuples, applied aliases `'t<…>`, process types, module types, `'`/`'<…>`. For
+    `rest`. Missing cases (the full statement is `RoundTripStatement`): spread fields and
+    `'alias[...]` tuples, process types, module types `'%m/n.t<…>`. For
     these the statement is evaluated on generated ASTs of every constructor by the harness (search,
     not proof). -/
 theorem roundtrip_partial (t : Ty) (hw : WFType t) (hf : t.frag = true) (rest : Str)
@@ -276,6 +277,15 @@ def exampleTy3 : Ty :=
 example : printTy exampleTy3 = "#(x: 'a, [^]) -> (P(y: ()) | () | (z: <'int>))".toList := by decide +kernel
 example : parseType (printTy exampleTy3 ++ " // c".toList) = .ok exampleTy3 " // c".toList :=
   roundtrip_partial exampleTy3 (by decide +kernel) (by decide +kernel) _ (by decide +kernel)
+
+/-- type arguments: `'tree<'k, (#'<'k> -> ') | ^1>` -/
+def exampleTy4 : Ty :=
+  .ident "tree".toList [.ident "k".toList [],
+    .union [.func (.selfDefault [.ident "k".toList []]) (.selfDefault []), .cycle (some 1)]]
+
+example : printTy exampleTy4 = "'tree<'k, ((#'<'k> -> ') | ^1)>".toList := by decide +kernel
+example : parseType (printTy exampleTy4 ++ ", x".toList) = .ok exampleTy4 ", x".toList :=
+  roundtrip_partial exampleTy4 (by decide +kernel) (by decide +kernel) _ (by decide +kernel)
 
 /-- the side condition is necessary: behind a bare tuple name, a line that starts with `(` makes the
     whole alias unreadable (defect D2, repaired in the formatter by 63d9fac) -/
